@@ -174,11 +174,11 @@ type an struct {
 	// who calls a function (nil = a root of the analysis): a function that is only ever called from functions running
 	// under one sync.Once (a helper split out of the Do closure, the method behind a method value given to Do) runs under it
 	callersOf map[*ssa.Function]map[*ssa.Function]bool
-	edgesCG  map[[2]string]bool
-	handed   map[string]bool
-	curWhy   string
-	ctxIds   map[string]int
-	ctxNames []string
+	edgesCG   map[[2]string]bool
+	handed    map[string]bool
+	curWhy    string
+	ctxIds    map[string]int
+	ctxNames  []string
 }
 
 func newAn(prog *ssa.Program, modPath string) *an {
